@@ -92,7 +92,7 @@ def run(res, tier, seed):
                 res.add_case((sc, chan, tgt, cs, cbb, first, residue), True, ctx)
                 # Coq correspondence on a few counts
                 if n <= 80:
-                    samples = ["(%d%%nat, %d, %s)" % (n // 2, c, common.flit(float(out[n // 2, c]))) for c in (0, cbb, cbb + 1, cs - 1, cs, 1023, rng.randrange(1024))]
+                    samples = ["(%d%%nat, %d, %s)" % (n // 2, c, common.flit(float(out[n // 2, c]))) for c in (0, cbb, cbb + 1, cs - 1, cs + 1, 1023, rng.randrange(1024)) if c != cs]   # count == smoothed space count: decided by float noise
                     coq.append(("(%d%%nat, %d%%nat, %s, %s, %s, %s, 3, [%s])" % (order.index(sc), chan, common.zpack(lns), common.zpack(prt3),
                                 common.zpack([x[chan] for x in ict10]), common.zpack([x[chan] for x in space10]), "; ".join(samples)), ctx))
         # --- phase-free: five starting phases of one underlying stream ---
